@@ -120,7 +120,7 @@ Anchors(n) == (IF n.anc # "" THEN <<n.anc>> ELSE <<>>) \o
   (IF n.k = "map" THEN FoldLeft(LAMBDA acc, e : acc \o Anchors(e.key) \o Anchors(e.v), <<>>, n.es)
    ELSE IF n.k = "seq" THEN FoldLeft(LAMBDA acc, x : acc \o Anchors(x), <<>>, n.es) ELSE <<>>)
 AliasTargets(n) == (IF n.k = "alias" THEN <<n.to>> ELSE <<>>) \o
-  (IF n.k = "map" THEN FoldLeft(LAMBDA acc, e : acc \o AliasTargets(e.v), <<>>, n.es)
+  (IF n.k = "map" THEN FoldLeft(LAMBDA acc, e : acc \o AliasTargets(e.key) \o AliasTargets(e.v), <<>>, n.es)
    ELSE IF n.k = "seq" THEN FoldLeft(LAMBDA acc, x : acc \o AliasTargets(x), <<>>, n.es) ELSE <<>>)
 RECURSIVE UniqueKeysIn(_)
 UniqueKeysIn(n) == IF n.k = "map" THEN (\A i, j \in DOMAIN n.es : i # j => n.es[i].key.val # n.es[j].key.val) /\ \A i \in DOMAIN n.es : UniqueKeysIn(n.es[i].v)
